@@ -262,7 +262,7 @@ PROPS['C09'] = {
     'technique': 'bounded exhaustive enumeration of (N, K, M, index, element size) for the sequence operations on the real code against the corresponding Vec operations, with ledger and address oracles',
     'parts': [engine_part('sequence-ops', 'e_seq', 'C09', shards_quick=2, asan='quick', miri=True)],
     'rule': ("complete for N in 0..=8: append/pop_back/prepend/pop_front chain, split::<K> for every K <= N in owned, & and &mut forms, concat for every (N, M) with N+M <= 8, remove(i) and swap_remove(i) for every i in 0..=N+1 and usize::MAX; plus "
-             "N in {15,16,17,31,32,33,63,64,100,255,256,1023,1024} with the position lattice {0,1,N/2,N-1,N}; element types of size 0 (tracked ZST, ()), 1 (u8), 8 (tracked, u64), 24 (tracked, [u8;24]) and 4 (tracked). Oracle: results and removed values "
+             "N in {15,16,17,31,32,33,63,64,100,255,256,1023,1024} with the position lattice {0,1,N/2,N-1,N}; element types of size 0 (tracked ZST, ()), 1 (u8), 2 (u16), 4 (tracked), 8 (tracked, u64), 24 (tracked, [u8;24]) and 128 (tracked). Oracle: results and removed values "
              "equal Vec push/insert(0)/pop/remove(0)/split_at/extend/remove/swap_remove on the same identities; the ledger shows exactly-once ownership after every step; out-of-range remove/swap_remove raise the documented panic with every element "
              "dropped once; by-reference split halves are (base, K) and (base + K*size, N-K) and a write at every index through the &mut halves appears at that index of the original. Non-trivial = N > 0."),
     'exhaustive': True,
